@@ -780,13 +780,21 @@ func (g *Gen) smallHelper(f *ssa.Function) bool {
 // contract: code that was moved out of some function ("extract function"). It is executed symbolically at its call
 // sites, loops included, as part of the caller's text: the caller's loop invariants and site clauses apply inside it.
 func (g *Gen) extractedFn(f *ssa.Function) bool {
-	if f == nil || f.Pkg == nil || len(f.Blocks) == 0 || f.Parent() != nil || f.Synthetic != "" || len(g.recordedFuncs) == 0 {
+	if f == nil || len(f.Blocks) == 0 || len(g.recordedFuncs) == 0 {
+		return false
+	}
+	// an instance of a generic function is judged by the generic function it is an instance of
+	base := f
+	if o := f.Origin(); o != nil {
+		base = o
+	}
+	if base.Pkg == nil || base.Parent() != nil || base.Synthetic != "" {
 		return false
 	}
 	if v, ok := g.extractedMemo[f]; ok {
 		return v
 	}
-	ok := g.recordedPkgs[f.Pkg.Pkg.Path()] && !g.recordedFuncs[f.String()] && g.contractFor(f) == nil
+	ok := g.recordedPkgs[base.Pkg.Pkg.Path()] && !g.recordedFuncs[base.String()] && g.contractFor(f) == nil && g.contractFor(base) == nil
 	if ok {
 		n := 0
 		for _, b := range f.Blocks {
